@@ -364,7 +364,7 @@ func init() {
 					fatal(err)
 				}
 				defer drv.close()
-				work := filepath.Join(root, fmt.Sprintf("w%d", w))
+				work := filepath.Join(root, fmt.Sprintf("w%d.gows", w)) // ".go" inside a directory name above the module: absolute spellings carry it
 				for sc := range ch {
 					_ = os.RemoveAll(work)
 					_ = os.MkdirAll(work, 0755)
